@@ -991,7 +991,7 @@ def _prepare(ctx, deep=False):
     if deep:
         hs = hs[len(FIXED_HISTORIES):]
     plan = Plan(st["variant"], hs)
-    plan.launch(ctx, max_procs=ctx.pick(6, 8), per_proc=ctx.pick(12, 4))
+    plan.launch(ctx, max_procs=ctx.pick(6, 8), per_proc=ctx.pick(12, 8))
     st["deep_plan" if deep else "plan"] = plan
     return plan
 
